@@ -187,13 +187,14 @@ class PKESessionKeyV3(PKESessionKey):
         self.encrypter = bytearray(8)
         self.pkalg = 0
         self.ct = None
+        self._opaque_ct = bytearray()
 
     def __bytearray__(self):
         _bytes = bytearray()
         _bytes += super(PKESessionKeyV3, self).__bytearray__()
         _bytes += binascii.unhexlify(self.encrypter.encode())
         _bytes += bytearray([self.pkalg])
-        _bytes += self.ct.__bytearray__() if self.ct is not None else b'\x00' * (self.header.length - 10)
+        _bytes += self.ct.__bytearray__() if self.ct is not None else self._opaque_ct
         return _bytes
 
     def __copy__(self):
@@ -201,6 +202,7 @@ class PKESessionKeyV3(PKESessionKey):
         sk.header = copy.copy(self.header)
         sk._encrypter = self._encrypter
         sk.pkalg = self.pkalg
+        sk._opaque_ct = self._opaque_ct[:]
         if self.ct is not None:
             sk.ct = copy.copy(self.ct)
 
@@ -281,7 +283,9 @@ class PKESessionKeyV3(PKESessionKey):
             self.ct.parse(packet)
 
         else:  # pragma: no cover
-            del packet[:(self.header.length - 18)]
+            # no ciphertext class for this algorithm: its fields are kept as they are (version, key id and algorithm are 10 octets)
+            self._opaque_ct = packet[:(self.header.length - 10)]
+            del packet[:(self.header.length - 10)]
 
 
 class Signature(VersionedPacket):
